@@ -276,6 +276,26 @@ def case_frames(L, c, res):
             L.call("changeFrame(%s)" % target, e.changeFrame, ft)
             ne = float(np.linalg.norm(edited))
             res.check("edited_between_changes", L.data(e), act(TB, Tt_, edited), s1 + ne * (1 + pB + _pn(Tt_)), tag + " (" + how + ")")
+    # the array the object was built from stays the caller's: a change of frame must not write through to it (a second
+    # object built from the same array afterwards is the same object in frame A); and an INTEGER array is a valid payload
+    mkarr = {"Wrench": lambda d: L.call("Wrench(data, None, frame)", L.Wrench, d, None, L.frame(c["A"])),
+             "Screw": lambda d: L.call("Screw(data, frame)", L.Screw, d, L.frame(c["A"]))}.get(cls)
+    if mkarr is not None:
+        for shape in ((6,), (6, 1)):
+            arr = np.array(v, dtype=float).reshape(shape)
+            o1 = mkarr(arr)
+            L.call("changeFrame(B)", o1.changeFrame, fB)
+            res.check("callers_array_after_frame_change", arr.reshape(6), v, 0.0, "array handed to the constructor, after changeFrame")
+            o2 = mkarr(arr)
+            L.call("changeFrame(B)", o2.changeFrame, fB)
+            res.check("callers_array_after_frame_change", L.data(o2), eB, s1, "second object from the same array, A->B")
+        vi = np.round(v)
+        if np.array_equal(vi, v):           # integer-valued data (the basis vectors): also as an int64 array
+            oi = mkarr(np.array(vi, dtype=np.int64))
+            L.call("changeFrame(B)", oi.changeFrame, fB)
+            res.check("formula", L.data(oi), eB, s1, "A->B, payload given as an int64 array")
+            L.call("changeFrame(A)", oi.changeFrame, fA)
+            res.check("roundtrip", L.data(oi), v, s1 + float(np.linalg.norm(eB)) * (1 + pA + pB), "A->B->A, int64 payload")
     # explicit old frame: the object was built without a frame (recorded: identity), the caller names its frame
     w = L.mk(cls, v, [0.0] * 6, c["ctor"])
     if cls == "Wrench":
